@@ -128,8 +128,11 @@ fn c01_snapshot_registers_its_own_horizon() {
 	let h: u64 = kani::any();
 	let v: u64 = kani::any();
 	let other: u64 = kani::any();
-	let dir = tempdir::TempDir::new("verif_c01").unwrap();
-	let opts = Arc::new(crate::Options { path: dir.path().to_path_buf(), ..Default::default() });
+	// (std only: the playback build also compiles the non-test library, where dev-dependencies are absent)
+	let dir = std::env::temp_dir().join(format!("verif_c01_{}", std::process::id()));
+	let _ = std::fs::remove_dir_all(&dir);
+	std::fs::create_dir_all(&dir).unwrap();
+	let opts = Arc::new(crate::Options { path: dir.clone(), ..Default::default() });
 	let tree = crate::Tree::new(Arc::clone(&opts)).unwrap();
 	let rt = tokio::runtime::Builder::new_current_thread().enable_all().build().unwrap();
 	// move the real visibility horizon to at least h + 1 (so that h < visible whenever the solver chose h < v)
@@ -147,4 +150,5 @@ fn c01_snapshot_registers_its_own_horizon() {
 	drop(s);
 	assert!(core.snapshot_tracker.get_all_snapshots() == before, "dropping a snapshot did not unregister exactly its own registration");
 	rt.block_on(tree.close()).unwrap();
+	let _ = std::fs::remove_dir_all(&dir);
 }
